@@ -567,6 +567,29 @@ def oracle_call(ctx, rec, spec, o, ob, sigma_now, nmodes_now):
             ctx.oracle_validation.get('ARPACK returns the nmodes eigenvalues closest to sigma (vs dense spectrum)', 0) + 1
 
 
+def keys_ambiguous(sort, W, Q):
+    """the sorting function would see (nearly) tied keys on this library output: the order is then unspecified"""
+    k = sort[0]
+    if k in ('const',):
+        return False
+    keys = -np.abs(Q[0, :]) if k == 'row0' else sort_keys(sort, W)
+    if keys is None or len(keys) < 2:
+        return False
+    keys = np.asarray(keys)
+    sc = max(1.0, np.abs(keys).max())
+    n = len(keys)
+    for i in range(n):
+        for j in range(i):
+            a, b = keys[i], keys[j]
+            if np.iscomplexobj(keys):
+                dr, di = abs(a.real - b.real), abs(a.imag - b.imag)
+                if (0 < dr < 1e-9 * sc) or (dr == 0 and di < 1e-9 * sc):
+                    return True
+            elif abs(a - b) < 1e-9 * sc:
+                return True
+    return False
+
+
 def spec_public(spec):
     return {k: v for k, v in spec.items() if not k.startswith('_')}
 
@@ -945,7 +968,7 @@ def run(ctx):
                 s['stream'] = 'corpus'
                 specs.append(s)
         q = ctx.quick()
-        nd, ns, nf, nmal = (150, 36, 5, 21) if q else (900, 200, 24, 100)
+        nd, ns, nf, nmal = (300, 60, 10, 40) if q else (3000, 500, 60, 300)
         nmax = 6 if q else 8
         for i in range(nd):
             s = gen_dense_spec(rec, rng, nmax, i)
@@ -986,6 +1009,10 @@ def run(ctx):
                 nval += 1
         if illcond:
             ctx.count('rejected:ill-conditioned normalisation')
+            continue
+        if spec['stream'] != 'malformed' and any(ob is not None and ob['an']['rawW'] is not None and
+                                                 keys_ambiguous(spec['sort'], ob['an']['rawW'], ob['an']['rawQ']) for ob in obs):
+            ctx.count('rejected:tied sorting keys (order unspecified)')
             continue
         if any(ob is not None and ob['an']['unobservable'] for ob in obs):
             ctx.count('skipped:library call neither recorded nor reproducible')
@@ -1041,6 +1068,7 @@ def run(ctx):
     ctx.obligation('correspondence:case files evaluated', 'correspondence', not err, err)
     if err:
         ctx.violation('correspondence', 'EigenSolve', 'case files compile', 'harness', dict(error=err[-3000:]), theorem='cases')
+    ctx.extra['failing_cases'] = [allc[i][1]['name'] + ' ' + str(allc[i][1].get('cls')) + ' ' + str(allc[i][1]['sort']) for i in failing[:50]]
     for idx in failing[:20]:
         expr, spec = allc[idx]
         ctx.violation('correspondence', 'EigenSolve._response', 'model == implementation', spec['stream'] + ':' + str(spec.get('cls')),
